@@ -300,9 +300,12 @@ class Val:
     sig: type (str) or None when the compiler chooses the signal; value int.
     bun: members dict name->int (non-zero), plus `dyn` flag for entity outputs."""
 
-    __slots__ = ("kind", "type", "value", "members", "ent", "cmp", "implicit_id")
+    __slots__ = ("kind", "type", "value", "members", "ent", "cmp", "implicit_id", "k")
 
-    def __init__(self, kind, type=None, value=0, members=None, ent=None, cmp=False, implicit_id=None):
+    def __init__(self, kind, type=None, value=0, members=None, ent=None, cmp=False, implicit_id=None, k=0):
+        # k: 0 run-time value, 1 constant the compiler folds on the AST, 2 constant that is only
+        # folded by IR-level constant propagation (a projection / unary op sits in between)
+        self.k = k
         self.kind = kind
         self.type = type
         self.value = value
@@ -329,8 +332,9 @@ class Interp:
     chest: entity name -> {signal: value} contents for .output
     """
 
-    def __init__(self, prog, inputs=None, mem=None, chest=None, funcs=None, files=None):
+    def __init__(self, prog, inputs=None, mem=None, chest=None, funcs=None, files=None, defects=()):
         self.prog = prog
+        self.defects = set(defects)
         self.inputs = inputs or {}
         self.mem = mem or {}
         self.chest = chest or {}
@@ -373,13 +377,15 @@ class Interp:
     def ev(self, e) -> Val:
         k = e[0]
         if k == "n":
-            return Val("int", None, e[1])
+            return Val("int", None, e[1], k=1)
         if k == "v":
             return self.lookup(e[1])
         if k == "t":
             t = self.rtype(e[1])
             v = self.ev(e[2])
-            return self.sigval(t, v.value)
+            r = self.sigval(t, v.value)
+            r.k = 1 if v.k else 0
+            return r
         if k == "b":
             l, r = self.ev(e[2]), self.ev(e[3])
             return self.arith(e[1], l, r)
@@ -412,11 +418,16 @@ class Interp:
         if k == "neg":
             x = self.ev(e[1])
             if x.kind == "int":
-                return Val("int", None, w32(-x.value))
-            return Val("sig", x.type, w32(-x.value), implicit_id=x.implicit_id)
+                return Val("int", None, w32(-x.value), k=x.k)
+            return Val("sig", x.type, w32(-x.value), implicit_id=x.implicit_id, k=2 if x.k else 0)
         if k == "p":
             x = self.ev(e[1])
-            return self.sigval(self.rtype(e[2]), x.value)
+            r = self.sigval(self.rtype(e[2]), x.value)
+            if x.k:
+                # a constant behind a projection is not seen by the AST-level folder: it is
+                # folded (if at all) by IR-level constant propagation
+                r.k = 2
+            return r
         if k == "s":
             c = self.ev(e[1])
             v = self.ev(e[2])
@@ -513,10 +524,13 @@ class Interp:
         v = arith("^" if op == "**" else op, l.value, r.value, notes)
         if notes:
             raise Unspec(",".join(sorted(notes)))
+        kk = max(l.k, r.k) if (l.k and r.k) else 0
+        if kk == 2 and op == "/" and "ir_floor_div" in self.defects and r.value != 0:
+            v = w32(l.value // r.value)
         if l.kind == "int" and r.kind == "int":
-            return Val("int", None, v)
+            return Val("int", None, v, k=kk)
         src = l if l.kind == "sig" else r
-        return Val("sig", src.type, v, implicit_id=src.implicit_id)
+        return Val("sig", src.type, v, implicit_id=src.implicit_id, k=kk)
 
     # ---- functions
     def call(self, fname, args):
@@ -554,11 +568,13 @@ class Interp:
             self.define(name, self.sigval(t, val))
         elif k == "int":
             v = self.ev(s[2])
-            self.define(s[1], Val("int", None, v.value))
+            self.define(s[1], Val("int", None, v.value, k=1))
         elif k == "sig":
             v = self.ev(s[2])
             if v.kind == "int":
                 v = self.sigval(None, v.value)
+            elif v.k:
+                v = Val("sig", v.type, v.value, cmp=v.cmp, implicit_id=v.implicit_id)  # declared: not folded further
             self.define(s[1], v)
         elif k == "bun":
             self.define(s[1], self.ev(s[2]))
@@ -604,7 +620,7 @@ class Interp:
         elif k == "for":
             _, it, rng_, body = s
             for val in loop_values(rng_, self):
-                self.scopes.append({it: Val("int", None, val)})
+                self.scopes.append({it: Val("int", None, val, k=1)})
                 try:
                     for b in body:
                         self.stmt(b)
